@@ -262,7 +262,7 @@ def oracle(case, rec):
 def refine_cases(draw, tier):
     c = draw(S.curves(5, 30 if tier == 'quick' else 120,
                       families=['quant', 'quant', 'plateau', 'steps', 'mono_dec', 'noise', 'pwl_dyadic', 'convex', 'trace'],
-                      scales=False))
+                      scales=False, big_n=100 if tier == 'quick' else 300))
     n = len(c['pts'])
     return {'family': c['family'], 'pts': c['pts'], 'fit': draw(st.sampled_from(FITS)),
             'ref': draw(st.sampled_from(['original', 'original', 'adjusted'])),
